@@ -50,7 +50,8 @@ MODELS = {
 
 
 def ivp_job(interp, c, case):
-    name, npts, uniform = case
+    name, npts, uniform = case[:3]
+    safe = len(case) > 3 and case[3]
     T = interp.load("bioscrape.types")
     S = interp.load("bioscrape.simulator")
     interp.shims["pandas"] = PandasShim()
@@ -78,8 +79,8 @@ def ivp_job(interp, c, case):
         ok = len(calls) > fails["n"]
         return Y, {"message": "Integration successful." if ok else "Excess work done on this call (perhaps wrong Dfun type)."}
     S.ns["odeint"] = odeint
-    rp = {"kind": "deterministic", "model": name}
-    df = S.ns["py_simulate_model"](tp, Model=M, stochastic=False)
+    rp = {"kind": "deterministic", "model": name, "safe": bool(safe)}
+    df = S.ns["py_simulate_model"](tp, Model=M, stochastic=False, safe=True) if safe else S.ns["py_simulate_model"](tp, Model=M, stochastic=False)
     _rep(c, len(calls) == 1, "one call to the integrator when it succeeds", rp=rp)
     f, y0, ts, kw = calls[0]
     order = M.get_species_list()
@@ -91,14 +92,15 @@ def ivp_job(interp, c, case):
     _rep(c, s_and(kw.get("atol") == Fraction("1.49012e-8"), kw.get("rtol") == Fraction("1.49012e-8")),
          "default tolerances are passed to the integrator", rp=rp)
     # the right-hand side itself, at an arbitrary state and time
-    x = {s: c.real("x_" + s, lo=0) for s in order}
+    x = {s: c.real("x_" + s, lo=0, lo_strict=bool(safe)) for s in order}      # safe mode: interior states
     t = c.real("t", lo=0)
     xv = np.array([x[s] for s in order], dtype=object)
     out = f(xv, t)
     want = spec["rhs"](x, P, t)
     _rep(c, s_and(*[out[i] == want[s] for i, s in enumerate(order)]),
-         "rhs(x, t) = (immediate + delayed stoichiometry) * rate(x, t) for model '%s' (delayed products applied as if the delay "
-         "were zero)" % name, "deterministic right-hand side", rp)
+         "rhs(x, t) = (immediate + delayed stoichiometry) * rate(x, t) for model '%s'%s (delayed products applied as if the delay "
+         "were zero)" % (name, " through the safe interface, at every positive state" if safe else ""),
+         "deterministic right-hand side%s" % (" (safe)" if safe else ""), rp)
     _rep(c, s_and(*[xv[i] == x[s] for i, s in enumerate(order)]), "evaluating the right-hand side does not modify the integrator's state "
          "(no rules in this model)", rp=rp)
     # result = integrator rows on the requested time axis
@@ -160,6 +162,12 @@ def check(tier):
         for (n, uni) in ((3, True), (3, False)) + (((4, False),) if tier == "thorough" else ()):
             ck.add("ivp/%s/%d/%s" % (name, n, "uniform" if uni else "nonuniform"), "harness.C04", "ivp_job",
                    dict(cases=[(name, n, uni)]), fresh=True)
+        ck.add("ivp/%s/3/uniform/safe" % name, "harness.C04", "ivp_job", dict(cases=[(name, 3, True, True)]), fresh=True)
+    from . import C03
+    for (S_, R_) in ((1, 1), (2, 2)):
+        for safe in (False, True):
+            ck.add("derivative/S%dR%d/%s" % (S_, R_, "safe" if safe else "plain"), "harness.C03", "derivative_job",
+                   dict(cases=[(S_, R_, safe)]), max_paths=100000)
     for nf, mx in ((0, 500000), (1, 500000), (2, 5000), (3, 5000), (5, 500000)):
         ck.add("retry/%d/%d" % (nf, mx), "harness.C04", "retry_job", dict(cases=[(nf, mx)]), fresh=True)
     from . import C09
